@@ -51,6 +51,13 @@ def cases(tier, seed):
     for i, (route, ps, cap, blk, mode, budget) in enumerate(cfgs):
         out.append({'id': '%s:ps%d:cap%d:%s:%s' % (route, ps, cap, 'blocks' if blk else 'sets', mode), 'route': route, 'ps': ps, 'cap': cap, 'blocks': blk,
                     'mode': mode, 'budget': budget, 'sseed': rng.randrange(1 << 30), 'cost': budget / 500.0 + 1})
+    # "always completes" when the storage stops taking data: the k-th write of the output fails (disk full); under every explored schedule
+    # the call must come back - by raising - and nothing may be written after it has
+    for route in ('numpy', 'segy', '2d'):
+        for cap in (1, 2, 16):
+            for k in (0, 1, 2):
+                out.append({'id': '%s:ps3:cap%d:write-fault@%d' % (route, cap, k), 'route': route, 'ps': 3, 'cap': cap, 'blocks': False, 'mode': 'random',
+                            'budget': 25 if q else 300, 'sseed': rng.randrange(1 << 30), 'cost': 2, 'fail_at': k})
     return out
 
 
@@ -86,7 +93,7 @@ def setup(case, sc):
     return (lambda out, mem_=mem: conv.convert_segy(s['path'], out, rate, bs, reduce_iops=route == 'segy-iops', detection=det, mem_limit=mem_)), s, rate, bs
 
 
-def run_one(job, out, chooser, cap):
+def run_one(job, out, chooser, cap, fail_at=None):
     """One controlled execution.  Returns dict(deadlock, trace, bytes, py/raw write logs, writes_after_return)."""
     import seismic_zfp.conversion as C
     import seismic_zfp.conversion_utils as CU
@@ -94,8 +101,14 @@ def run_one(job, out, chooser, cap):
     IQ, IT = sched.instrument(S)
     rec = monitors.RecordingOpen(only=out)
 
+    nw = [0]
+
     def before_write(hid, data):
         S.yield_(lambda: True, 'write')
+        nw[0] += 1
+        if fail_at is not None and nw[0] - 1 == fail_at:
+            S.injected_write_faults = getattr(S, 'injected_write_faults', 0) + 1
+            raise OSError(28, 'No space left on device (injected at write %d)' % fail_at)
         S.note_write(data)
     rec.before_write = before_write
     oldq, oldt, oldz = CU.Queue, CU.Thread, CU.zfpy
@@ -126,8 +139,8 @@ def run_one(job, out, chooser, cap):
             pass
         except Exception as e:  # noqa
             err = e
-        if not S.deadlock and err is None:
-            S.after_return()
+        if not S.deadlock and (err is None or fail_at is not None):
+            S.after_return()          # (also when the call came back by raising after an injected write failure: what do the workers still write?)
         else:
             S.abort()
     finally:
@@ -206,6 +219,7 @@ def run_case(case, ctx):
     transitions = set()
     schedules = set()
     n_exec = 0
+    faults = 0
     own_cap = False
     virt = [0, 0, 0]
     maxlen = 0
@@ -250,7 +264,7 @@ def run_case(case, ctx):
             return en[names.index(c)]
         if os.path.exists(out):
             os.remove(out)
-        S, rec, err = run_one(job, out, chooser, case['cap'])
+        S, rec, err = run_one(job, out, chooser, case['cap'], case.get('fail_at'))
         if not S.queues or not S.trace or (not rec.py and err is None and not S.deadlock):
             # the pipeline did not go through the instrumented Queue / Thread / open (e.g. after a refactoring): nothing was controlled
             return {'inconclusive': 'instrumentation not reached: %d queues, %d scheduled operations, %d recorded writes' % (len(S.queues), len(S.trace), len(rec.py)),
@@ -264,6 +278,20 @@ def run_case(case, ctx):
         maxlen = max(maxlen, len(S.trace))
         schedules.add(hash(tuple(S.trace)))
         sched_txt = ' '.join('%s.%s' % (a[:4], b2) for a, b2 in S.trace[-40:])
+        if case.get('fail_at') is not None:
+            faults += getattr(S, 'injected_write_faults', 0)
+            if not getattr(S, 'injected_write_faults', 0):
+                pass                                  # the file has fewer writes than that under this schedule: nothing was injected
+            elif S.deadlock:
+                bad.append({'sig': 'pipeline:write-failure:call-never-returns', 'detail': 'write %d of the output raised OSError; afterwards no thread can run and run() has not returned; blocked: %s; schedule tail: %s'
+                            % (case['fail_at'], getattr(S, 'blocked', None), sched_txt)})
+            elif err is None:
+                bad.append({'sig': 'pipeline:write-failure:not-reported', 'detail': 'write %d of the output raised OSError but run() returned normally; schedule tail: %s' % (case['fail_at'], sched_txt)})
+            elif S.writes_after_return:
+                bad.append({'sig': 'pipeline:write-failure:write-after-return', 'detail': '%s; schedule tail: %s' % (S.writes_after_return[:3], sched_txt)})
+            if len(bad) > 3:
+                break
+            continue
         if S.deadlock:
             bad.append({'sig': 'pipeline:deadlock', 'detail': 'no enabled thread with run() unfinished; blocked: %s; schedule tail: %s' % (getattr(S, 'blocked', None), sched_txt)})
         elif err is not None:
@@ -298,11 +326,13 @@ def run_case(case, ctx):
     strata = ['route:' + case['route'], 'ps:%d' % case['ps'], 'cap:%d' % case['cap'], 'mode:' + case['mode'], 'layout:' + ('blocks' if case['blocks'] else 'sets')]
     if complete:
         strata.append('dfs-complete')
+    if case.get('fail_at') is not None:
+        strata.append('write-fault')
     if own_cap:
         # the converter derived this capacity itself (from the memory it was told the machine has) and passed it down as queue_size
         strata.append('library-derived-cap:%d' % case['cap'])
     counters = {'executions': n_exec, 'abstract_states': len(visited), 'transitions': len(transitions), 'distinct_schedules': len(schedules),
-                'schedule_len_max': maxlen, 'virtual_timeouts_fired': virt[0], 'timed_condition_waits': virt[1], 'polling_observations': virt[2], 'dfs_complete': 1 if complete else 0, 'dfs_incomplete': 1 if case['mode'] == 'dfs' and not complete else 0}
+                'schedule_len_max': maxlen, 'virtual_timeouts_fired': virt[0], 'timed_condition_waits': virt[1], 'polling_observations': virt[2], 'dfs_complete': 1 if complete else 0, 'dfs_incomplete': 1 if case['mode'] == 'dfs' and not complete else 0, 'write_faults_injected': faults}
     return {'violations': bad, 'counters': counters, 'strata': strata, 'key': case['id'], 'nontrivial': n_exec > 0,
             'summary': {'id': case['id'], 'executions': n_exec, 'states': len(visited), 'transitions': len(transitions), 'schedules': len(schedules),
                         'complete': complete, 'wall': round(time.time() - t_start, 1)}}
@@ -315,10 +345,12 @@ def sample_view(case, res):
 def finalize(tier, cases, results, counters, strata):
     reasons = []
     need = ['route:numpy', 'route:segy', 'route:segy-thorough', 'route:2d', 'ps:1', 'ps:2', 'ps:3', 'cap:1', 'cap:2', 'cap:16', 'mode:dfs', 'mode:random', 'mode:pct',
-            'dfs-complete', 'layout:blocks', 'library-derived-cap:1', 'library-derived-cap:2', 'library-derived-cap:16']
+            'dfs-complete', 'layout:blocks', 'library-derived-cap:1', 'library-derived-cap:2', 'library-derived-cap:16', 'write-fault']
     for s in need:
         if s not in strata:
             reasons.append('required stratum not hit: ' + s)
+    if counters.get('write_faults_injected', 0) == 0:
+        reasons.append('no write failure was injected')
     summ = [r.get('summary') for r in results.values() if r.get('summary')]
     dfs12 = [s for s in summ if ':dfs' in s['id'] and (':ps1:' in s['id'] or ':ps2:' in s['id']) and ':sets:' in s['id']]
     extra = {'states': counters.get('abstract_states', 0), 'transitions': counters.get('transitions', 0),
